@@ -96,6 +96,8 @@ class Tr:
                 fname = f.id
             if fname == "np.sqrt" and len(e.args) == 1:
                 return "(sqrt %s)" % self.expr(e.args[0], env)
+            if fname in ("np.sin", "np.cos") and len(e.args) == 1:
+                return "(%s %s)" % (fname[3:], self.expr(e.args[0], env))
             if fname == "ellipe" and len(e.args) == 1:
                 return "(EllipE %s)" % self.expr(e.args[0], env)
             if fname == "np.min" and len(e.args) == 1 and isinstance(e.args[0], ast.List) and len(e.args[0].elts) == 2:
@@ -198,6 +200,13 @@ def diag_entries(fn):
     return fn2
 
 
+def method(cls_node, name):
+    for n in cls_node.body:
+        if isinstance(n, ast.FunctionDef) and n.name == name and not n.decorator_list:
+            return n
+    raise TranslationError("method %s not found" % name)
+
+
 def getter(cls_node, name):
     for n in cls_node.body:
         if isinstance(n, ast.FunctionDef) and n.name == name:
@@ -233,6 +242,17 @@ def generate(repo=REPO):
             out.append("Definition %s (%s : R) :=\n    %s." % (cname, " ".join(spec["params"] + CENTER), term))
             out.append("")
             known[(cls, prop)] = cname
+        if cls == "Ellipse":
+            # distance_to_surface(self, angles): one extra real argument
+            fn = method(cnode, "distance_to_surface")
+            if [a.arg for a in fn.args.args] != ["self", "angles"]:
+                raise TranslationError("distance_to_surface signature")
+            stmts = [s_ for s_ in fn.body if not (isinstance(s_, ast.Expr) and isinstance(s_.value, ast.Constant))]
+            if len(stmts) != 1 or not isinstance(stmts[0], ast.Return):
+                raise TranslationError("distance_to_surface is not a single return")
+            term = tr.expr(stmts[0].value, {"angles": "theta"})
+            out.append("Definition ellipse_distance_to_surface (%s theta : R) :=\n    %s." % (" ".join(spec["params"] + CENTER), term))
+            out.append("")
     return "\n".join(out) + "\n"
 
 
